@@ -103,4 +103,18 @@ C16_Sel_Failed(scores, count, chosenIdx) ==
      \cup (IF \A a \in 1..Len(chosenIdx) : \A j \in 1..n :
                  (\A b \in 1..Len(chosenIdx) : chosenIdx[b] # j) => scores[j] <= scores[chosenIdx[a]]
            THEN {} ELSE {"highest_scoring_kept"})
+
+\* CorrelationResult.createPeaks: the peaksCount highest peaks of ONE correlation are kept (numpy argpartition: the order
+\* of the kept ones and the choice among equal heights are unspecified)
+C16_Keep_Failed(scores, count, chosenIdx) ==
+    LET n == Len(scores)
+        m == IF count < n THEN count ELSE n
+    IN (IF Len(chosenIdx) = m THEN {} ELSE {"keeps_min_count_all"})
+     \cup (IF \A a \in 1..Len(chosenIdx) : chosenIdx[a] \in 1..n THEN {} ELSE {"kept_peak_is_one_of_the_peaks"})
+     \cup (IF \A a, b \in 1..Len(chosenIdx) : a # b => chosenIdx[a] # chosenIdx[b] THEN {} ELSE {"each_peak_once"})
+     \cup (IF \A a \in 1..Len(chosenIdx) : chosenIdx[a] \in 1..n =>
+                 \A j \in 1..n : (\A b \in 1..Len(chosenIdx) : chosenIdx[b] # j) => scores[j] <= scores[chosenIdx[a]]
+           THEN {} ELSE {"highest_peaks_of_the_correlation_kept"})
+HeightBag(scores, idx) == [h \in {scores[j] : j \in 1..Len(scores)} |->
+                              Cardinality({a \in 1..Len(idx) : idx[a] \in 1..Len(scores) /\ scores[idx[a]] = h})]
 =============================================================================
